@@ -317,7 +317,9 @@ DtOf(S, kind) ==
 \* Time-model assumption of the generated histories: an epoch is shorter than a month, i.e. the month timer of one
 \* subscription never fires twice inside one epoch (with the big block-time steps used here that has to be enforced;
 \* family "jump" drops the assumption on purpose).
-TimeOk(S, dt) == Bias = "jump" \/ \A c \in Consumers : (S.subs[c].on /\ S.subs[c].gone = 0 /\ S.subs[c].mfe) => S.subs[c].exp > S.t + dt
+\* The same hazard exists while a future version written by an upgrade (blk > h) is pending.
+TimeOk(S, dt) == Bias = "jump" \/ \A c \in Consumers :
+                   (S.subs[c].on /\ S.subs[c].gone = 0 /\ (S.subs[c].mfe \/ S.subs[c].blk > S.h)) => S.subs[c].exp > S.t + dt
 DtKinds == IF Tiny THEN {"default", "1d", "monthend", "plus10"} ELSE {"default", "1h", "1d", "monthend", "plus10"}
 
 ----------------------------------------------------------------------------
@@ -643,6 +645,8 @@ Next == \E k \in McKinds : \E x \in Cands(st, k) : Do(x)
 KindsOf(b) ==
   CASE b \in {"renew", "jump"} -> ({"NextBlock"} \X {1, 2, 3}) \cup ({"NextEpoch"} \X {1, 2}) \cup
                       ({"PlanAdd", "PlanDel", "SubBuy", "SubBuyAdvance", "SubAutoRenew", "RelayPay"} \X {1})
+    [] b = "f1" -> ({"NextBlock"} \X {1, 2, 3, 4}) \cup ({"NextEpoch"} \X {1, 2, 3}) \cup
+                   ({"PlanAdd", "PlanDel", "SubBuy", "SubAutoRenew"} \X {1})
     [] b = "stake" -> ({"NextBlock", "NextEpoch", "Slash", "Stake", "MoveStake", "Unstake", "Freeze", "Unfreeze", "DsDelegate",
                         "DsRedelegate", "DsUnbond", "DsClaim", "ValDelegate", "ValUndelegate", "ValRedelegate", "SubBuy", "RelayPay"} \X {1})
                       \cup ({"NextBlock", "Unstake", "Slash"} \X {2})
